@@ -4,6 +4,7 @@
 package chain
 
 import (
+	mh "github.com/multiformats/go-multihash"
 	"crypto/sha256"
 	"encoding/json"
 	"errors"
@@ -183,6 +184,24 @@ func miss(style int) (*delegation.Token, error) {
 	return nil, delegation.ErrDelegationNotFound
 }
 
+// AltCid: style 4 identity multihash (the sealed bytes themselves), 5 sha2-512, 6 raw codec, 7 CIDv0.
+func AltCid(sealed []byte, style int) cid.Cid {
+	switch style {
+	case 4:
+		m, _ := mh.Sum(sealed, mh.IDENTITY, -1)
+		return cid.NewCidV1(0x71, m)
+	case 5:
+		m, _ := mh.Sum(sealed, mh.SHA2_512, -1)
+		return cid.NewCidV1(0x71, m)
+	case 6:
+		m, _ := mh.Sum(sealed, mh.SHA2_256, -1)
+		return cid.NewCidV1(0x55, m)
+	default:
+		m, _ := mh.Sum(sealed, mh.SHA2_256, -1)
+		return cid.NewCidV0(m)
+	}
+}
+
 func (l *loader) GetDelegation(c cid.Cid) (*delegation.Token, error) {
 	if l.errs[c] {
 		return nil, errors.New("verif: injected loader failure")
@@ -331,9 +350,16 @@ func Build(c Case) (*Built, error) {
 		if master != nil && len(l.Pol) > 0 && len(l.Pol) <= len(master) {
 			pre = master[:len(l.Pol)] // same array, capacity to the end of it
 		}
-		t, id, _, err := BuildLinkWith(l, pre)
+		t, id, sealedBytes, err := BuildLinkWith(l, pre)
 		if err != nil {
 			return nil, fmt.Errorf("link %d: %w", i, err)
+		}
+		if l.Missing && l.MissStyle >= 4 {
+			// the delegation is referenced by a CID of another form than the one the loader files it under (and
+			// the loader does not have it under any): the bytes inlined in an identity CID, another hash function,
+			// another codec, CIDv0. Whatever the CID carries or resembles, a proof the loader does not hand out
+			// has not been loaded.
+			id = AltCid(sealedBytes, l.MissStyle)
 		}
 		b.Cids = append(b.Cids, id)
 		b.Dlgs = append(b.Dlgs, t)
